@@ -1,7 +1,7 @@
 SPECIFICATION Spec
 CONSTANTS
   MaxSegs = 2
-  Seps = {"sp", "sp2", "tab", "nl", "nlIndent", "nlTab", "nlMixed", "blank3", "trail", "crlf"}
+  Seps = {"sp", "sp2", "tab", "nl", "nlIndent", "nlTab", "nlMixed", "blank3", "trail", "crlf", "blank3crlf", "trailcrlf"}
   Shape = "token-aware"
   Emit = TRUE
 INVARIANTS PreservesTokens Idempotent CleanAfterFix
